@@ -135,7 +135,10 @@ class ErrorHandling:
                 token.end = 0
                 token.index = 0
                 token.lineno = 0
-                self.parser.parse(iter(self.tokens[:error_index] + [token]))
+                try:
+                    self.parser.parse(iter(self.tokens[:error_index] + [token]))
+                except ParsingException:
+                    return []
                 if self.parser.error_info['bad_token'] is token:
                     return []
             suggestions.append(first_value)
@@ -154,7 +157,10 @@ class ErrorHandling:
                     token.end = 0
                     token.index = 0
                     token.lineno = 0
-                    self.parser.parse(iter(self.tokens + [token]))
+                    try:
+                        self.parser.parse(iter(self.tokens + [token]))
+                    except ParsingException:
+                        continue
                     if self.parser.error_info['bad_token'] is not token:
                         suggestions.append(value)
                 return suggestions
@@ -187,7 +193,11 @@ class ErrorHandling:
     def query_is_valid(self, tokens):
         # try to parse list of tokens
 
-        ast = self.parser.parse(iter(tokens))
+        try:
+            ast = self.parser.parse(iter(tokens))
+        except ParsingException:
+            # a grammar action refused the made-up statement: not a valid continuation - and not the user's error to report
+            return False
         return ast is not None
 
 
